@@ -441,6 +441,10 @@ func c18MonReconcile(s c18Scn, before []c18Role, obs c18Obs, rejected []roles.Ru
 	if (len(rejected) > 0 || verr != nil) && anyWrite {
 		mons = append(mons, Mon{Sig: "C18:role-written-despite-rejection", Why: fmt.Sprintf("%d requested rule(s) rejected (validator error: %v) but writes happened: %v", len(rejected), verr, obs.Writes)})
 	}
+	if s.Validator == "role" && anyWrite && verr == nil {
+		// end to end: roles were written, so every request was granted; each must be covered
+		mons = append(mons, c18MonValidate(c18Scn{Kind: "validate", Allow: s.Allow, Requests: t.Requests}, rejected, nil)...)
+	}
 	prefix := "crossplane:provider:" + t.Name + ":"
 	mine := map[string]bool{prefix + "aggregate-to-edit": true, prefix + "aggregate-to-view": true, prefix + "system": true}
 	mons = append(mons, c18Untouched(before, obs.Roles, mine, "C18:foreign-role-touched")...)
